@@ -118,6 +118,25 @@ def install():
 
     backtest_mode.save_daily_portfolio_balance = w_daily
 
+    m_exec = backtest_mode._execute_market_orders
+
+    def w_market():
+        # called by both simulators right after every route's strategy ran and its active list was pruned: at this moment the
+        # orders reported as active must be exactly the non-final ones, for EVERY trading symbol
+        from jesse.store import store
+        from jesse.routes import router
+        for r in ([] if STATE.get('terminating') else router.routes):     # (the forced close at session end does not prune)
+            act = store.orders.get_active_orders(r.exchange, r.symbol)
+            stale = [getattr(o, '_vf_oid', -1) for o in act if not o.is_active]
+            have = {id(o) for o in act}
+            missing = [o._vf_oid for o in ORDERS if o.symbol == r.symbol and o.is_active and id(o) not in have]
+            if stale or missing:
+                TRACE.append(('active-list', r.symbol, now(), stale, missing))
+        TRACE.append(('step-end', now()))
+        return m_exec()
+
+    backtest_mode._execute_market_orders = w_market
+
     g_out = backtest_mode._generate_outputs
 
     def w_out(*a, **kw):
@@ -464,6 +483,7 @@ def _strategy_base():
                 raise RuntimeError('scripted failure')
 
         def before_terminate(self):
+            STATE['terminating'] = True
             self._log('before_terminate')
 
         def terminate(self):
@@ -498,6 +518,7 @@ def run_session(case):
     del ORDERS[:]
     SPECS.clear()
     STATE['in_exec'] = 0
+    STATE['terminating'] = False
     STATE['end'] = None
     STATE['observe'] = case.get('observe', 1)
     c = case['cfg']
